@@ -212,6 +212,12 @@ def run(ctx):
             ctx.undecided('ALG-11', "selector '%s'" % letter, where, 'no attribute is cut by a prefix slice: %r' % ({k: info.attrs.get(k) for k in per_fit[:2]},))
             continue
         n = ns[0]
+        if letter == 'N':
+            # x[:n] and x[:min(n, total)] are the same prefix: the count may be written either way
+            iv_, tot_ = mk_fn('int', P(sym('number'))), alg.count(R)
+            alt_ = iv_ + lt(tot_, iv_) * (tot_ - iv_)
+            if alg.is_zero(n - alt_)[0]:
+                ref = alt_
         compare(ctx, 'ALG-11', "selector '%s' count" % letter, where, Arr((), n), ref, (), vocab=VOCAB, findings=I.findings,
                 detail_ok='n_fits == %s' % alg.show(ref, 140))
         if letter in 'CDEF':
